@@ -29,7 +29,8 @@ ASSUMPTIONS = [
     "reference evaluator vf/c04_comp.py:Ref (a transcription of docs/api.rst lfor/for/gfor/dfor/sfor) is the trusted base",
     "no clauses at all: empty result, nothing evaluated (tests/native_tests/comprehensions.hy test-fors-no-loopers); a false :if before any iteration clause ends the form",
     "evaluation order inside calls/collections/operators is unspecified: at most one effectful child is generated there; dfor key and value effects may interleave",
-    "not generated (undefined by the docs or forbidden by Python): break/continue/assignment in an iteration clause's iterable, break/continue outside :do / for body or before the first iteration clause, assignment to a name that is an iteration/:setv variable, reading an iteration variable before it is bound, setx in a class-scope comprehension, reading class-level names inside a comprehension, for-else without an iteration clause",
+    "setx/setv inside a :setv value, an :if test, a :do form, the value form or a nested comprehension counts as 'inside the form' (api.rst: 'variables defined within the body, as with a setx expression, will be visible outside the form')",
+    "not generated (undefined by the docs or forbidden by Python): break/continue/assignment in an iteration clause's iterable, break/continue outside :do / for body or before the first iteration clause, assignment to a name that is an iteration/:setv variable, reading a name before the same form binds it (also an outer form's variable of that name), re-binding a name with a value of another type, setx in a class-scope comprehension, reading class-level names inside a comprehension, for-else without an iteration clause",
     "gfor laziness at k=0: the first clause's expression may already have been evaluated when the iterator is created (Python evaluates a generator expression's first iterable eagerly)",
     "for-else effects are not compared when the outermost iteration clause was never reached (a false :if before it)",
 ]
@@ -379,7 +380,12 @@ def strategies():
                 return self.pick(unused[:3])
             if same:
                 return self.pick(same)
-            raise ValueError("name pool exhausted")
+            k = 0
+            while True:  # pool exhausted: numbered names
+                name = "%s%d" % ("n" if pool is ITER_NAMES else "rr", k)
+                if name not in env and name not in taken and name not in avoid:
+                    return name
+                k += 1
 
         def target(self, env, shape, avoid=()):
             """-> (target, {name: type})"""
@@ -860,4 +866,31 @@ def shrink(case, same, budget):
     return best
 
 
-MATCHERS = {}
+def nested_body_assignment_stops_at_hidden_function(case, bucket, detail):
+    """Root cause (only needed if the proposed repair of ScopeGen.finalize is not taken): a name assigned by setx/setv inside a
+    comprehension that is itself inside a comprehension compiled with the generator-function strategy becomes a local of the
+    outer hidden function instead of reaching the enclosing scope.  Recognised by: a leak mismatch of a body-assigned name
+    under the function strategy whose actual state is 'never assigned', and the name is assigned only inside nested forms."""
+    if not bucket.startswith(("leak:setx-var:function", "leak:setv-var:function")):
+        return False
+    name = detail["expected"].split(" = ")[0]
+    if detail["actual"] not in ("%s = %s" % (name, C.ABSENT), "%s = %s" % (name, C.canon(C.sentinel(name)))):
+        return False
+    comp = case["comp"]
+    direct = False
+    for e in C.comp_exprs(comp):
+        stack = [e]
+        while stack:
+            n = stack.pop()
+            if n[0] == "comp":
+                continue
+            if n[0] in ("setx", "setv") and n[1] == name:
+                direct = True
+            stack.extend(C._kids(n))
+    nested = any(e[0] == "comp" and name in C.leak_names(e[1]) for e in C.walk_comp(comp))
+    return nested and not direct
+
+
+# no known finding is registered: all four defects found have small repairs (see the report); the matcher above is offered as the
+# alternative for the nested-comprehension one
+MATCHERS = {"nested_body_assignment_stops_at_hidden_function": nested_body_assignment_stops_at_hidden_function}
